@@ -208,10 +208,44 @@ func c08(c *core.Ctx) {
 	})
 
 	c.Run("RunContext.flush", func() {
-		fn := c.Fn(st + ".RunContext.flush")
+		top := c.Fn(st + ".RunContext.flush")
 		write := c.StdFunc("os", "File.Write")
 		sync := c.StdFunc("os", "File.Sync")
 		seek := c.StdFunc("os", "File.Seek")
+		// the writes may live in a same-package helper (write a new file, then rename it over the old one)
+		fn := holder(top, write, 2)
+		if fn == nil {
+			c.Check("RunContext.flush:writes", "must-call", false, top.Pos(), "RunContext.flush (or a helper it calls) writes context.data")
+			return
+		}
+		if fn != top {
+			// the helper's error is heeded, and only then the new file replaces the old one; the rename's error is the result
+			hobj, _ := fn.Object().(*types.Func)
+			hc := heeded(c, top, hobj, core.ErrNonNil, 1, nil)
+			rn := core.CallsIn(top, c.StdFunc("os", "Rename"))
+			okR := len(hc) == 1 && len(rn) == 1
+			if okR {
+				okR = core.Dominates(hc[0], rn[0])
+				if h, _ := core.HeededBefore(hc[0], core.ErrNonNil, rn[0]); !h {
+					okR = false
+				}
+				// written path = first argument of the rename; target = the context's own path
+				a := rn[0].Common().Args
+				okR = okR && core.SliceHasField(core.Slice(a[1]), c.FieldVar(st+".RunContext", "Path"))
+				ha := hc[0].Common().Args
+				same := false
+				for _, x := range ha {
+					if x == a[0] || core.Derived(x)[a[0]] || core.Derived(a[0])[x] {
+						same = true
+					}
+				}
+				okR = okR && same
+				if pr, _ := core.CallHeeded(rn[0], core.ErrNonNil, nil); !pr {
+					okR = false
+				}
+			}
+			c.Check("RunContext.flush:new-file-synced≺rename-over-context.data", "order", okR, top.Pos(), "the new content is written and synced to another path and replaces context.data by a rename only after that succeeded; the rename's error is handed on")
+		}
 		ws := heeded(c, fn, write, core.ErrNonNil, 2, nil)
 		heeded(c, fn, seek, core.ErrNonNil, 1, nil)
 		ss := propagated(c, fn, 1, sync)
